@@ -55,7 +55,9 @@ impl OutstationInformation for Info {}
 
 fn frames_of(fragment: &[u8], seq: u8) -> Vec<Vec<u8>> {
     let (segs, _) = segment(MASTER, fragment, seq);
-    segs.iter().map(|s| rl::encode(0xC4, OUT, MASTER, &s.payload())).collect()
+    segs.iter()
+        .map(|s| rl::encode(0xC4, OUT, MASTER, &s.payload()))
+        .collect()
 }
 
 /// send a READ and wait (wall clock) for a response fragment that carries its sequence number
@@ -75,7 +77,10 @@ fn probe(sock: &UdpSocket, to: std::net::SocketAddr, seq: u8, wait: Duration) ->
             let mut rest = &buf[..n];
             while let rl::TryFrame::Ok(fr, used) = rl::try_frame(rest) {
                 // application header behind the transport octet: control, function
-                if fr.payload.len() >= 3 && fr.payload[2] == func::RESPONSE && fr.payload[1] & 0x0F == seq & 0x0F {
+                if fr.payload.len() >= 3
+                    && fr.payload[2] == func::RESPONSE
+                    && fr.payload[1] & 0x0F == seq & 0x0F
+                {
                     return true;
                 }
                 rest = &rest[used..];
@@ -87,7 +92,11 @@ fn probe(sock: &UdpSocket, to: std::net::SocketAddr, seq: u8, wait: Duration) ->
 
 pub fn run_case(case: &Case) -> CaseOut {
     let mut out = CaseOut::default();
-    let rt = tokio::runtime::Builder::new_multi_thread().worker_threads(2).enable_all().build().expect("runtime");
+    let rt = tokio::runtime::Builder::new_multi_thread()
+        .worker_threads(2)
+        .enable_all()
+        .build()
+        .expect("runtime");
     // the harness sockets (blocking std sockets on the test thread)
     let Ok(master) = UdpSocket::bind("127.0.0.1:0") else {
         out.label("setup_failed");
@@ -107,7 +116,11 @@ pub fn run_case(case: &Case) -> CaseOut {
     };
     let out_addr: std::net::SocketAddr = format!("127.0.0.1:{port}").parse().unwrap();
     let _guard = rt.enter();
-    let mut oc = OutstationConfig::new(EndpointAddress::try_new(OUT).unwrap(), EndpointAddress::try_new(MASTER).unwrap(), EventBufferConfig::all_types(5));
+    let mut oc = OutstationConfig::new(
+        EndpointAddress::try_new(OUT).unwrap(),
+        EndpointAddress::try_new(MASTER).unwrap(),
+        EventBufferConfig::all_types(5),
+    );
     oc.keep_alive_timeout = None;
     // no unsolicited reporting: a READ is then answered at once in every state this script can reach
     oc.features.unsolicited = Feature::Disabled;
@@ -115,8 +128,16 @@ pub fn run_case(case: &Case) -> CaseOut {
         OutstationUdpConfig {
             local_endpoint: out_addr,
             remote_endpoint: master.local_addr().unwrap(),
-            socket_mode: if case.one_to_many { UdpSocketMode::OneToMany } else { UdpSocketMode::OneToOne },
-            link_read_mode: if case.stream_read_mode { LinkReadMode::Stream } else { LinkReadMode::Datagram },
+            socket_mode: if case.one_to_many {
+                UdpSocketMode::OneToMany
+            } else {
+                UdpSocketMode::OneToOne
+            },
+            link_read_mode: if case.stream_read_mode {
+                LinkReadMode::Stream
+            } else {
+                LinkReadMode::Datagram
+            },
             // a session that ends is not replaced for a long time: deafness is visible
             retry_delay: Timeout::from_secs(30).unwrap(),
         },
@@ -211,7 +232,12 @@ pub fn run_case(case: &Case) -> CaseOut {
     while master.recv_from(&mut buf).is_ok() {}
     let mut answered = false;
     for k in 0..2u8 {
-        if probe(&master, out_addr, seq.wrapping_add(5 + k), Duration::from_millis(750)) {
+        if probe(
+            &master,
+            out_addr,
+            seq.wrapping_add(5 + k),
+            Duration::from_millis(750),
+        ) {
             answered = true;
             break;
         }
@@ -220,7 +246,12 @@ pub fn run_case(case: &Case) -> CaseOut {
         // a loaded machine is not a deaf outstation: one more, long, probe before the verdict (a dropped session stays
         // deaf for the 30 s retry delay)
         out.label("slow_answer_or_deaf");
-        answered = probe(&master, out_addr, seq.wrapping_add(11), Duration::from_millis(4000));
+        answered = probe(
+            &master,
+            out_addr,
+            seq.wrapping_add(11),
+            Duration::from_millis(4000),
+        );
     }
     if !answered {
         out.fail(
@@ -261,8 +292,16 @@ impl Prop for Udp {
             1 => fraggen::frag_strategy().prop_map(Dgram::TwoFrames),
             1 => fraggen::frag_strategy().prop_map(Dgram::Split),
         ];
-        (any::<bool>(), prop_oneof![3 => Just(false), 1 => Just(true)], proptest::collection::vec((d, prop_oneof![3 => Just(false), 1 => Just(true)]), 1..8))
-            .prop_map(|(one_to_many, stream_read_mode, script)| Case { one_to_many, stream_read_mode, script })
+        (
+            any::<bool>(),
+            prop_oneof![3 => Just(false), 1 => Just(true)],
+            proptest::collection::vec((d, prop_oneof![3 => Just(false), 1 => Just(true)]), 1..8),
+        )
+            .prop_map(|(one_to_many, stream_read_mode, script)| Case {
+                one_to_many,
+                stream_read_mode,
+                script,
+            })
             .boxed()
     }
     fn cases(tier: Tier) -> u32 {
